@@ -81,22 +81,26 @@ Section Agree.
     split; [exact H2|]. split; [destruct ds; [discriminate|discriminate]|apply Z.leb_le; exact H4].
   Qed.
 
-  Lemma to_mterm_wf t : wf_uterm t = true -> @wf_term R RNum (to_mterm v t) = true.
+  Lemma forallb_finite_R (l : list (name * R)) : forallb (fun vp => finite (snd vp)) l = true.
+  Proof. induction l as [|x l IH]; cbn [forallb]; [reflexivity|]. rewrite finite_R, IH. reflexivity. Qed.
+
+  Lemma to_mterm_wf neg t : wf_uterm t = true -> @wf_term R RNum (neg, to_mterm v t) = true.
   Proof.
-    intros H. apply wf_uterm_parts in H. destruct t as [d|c e]; unfold wf_term, to_mterm; cbn [fst snd].
-    - cbn [wf_coef forallb andb]. rewrite H. reflexivity.
+    intros H. apply wf_uterm_parts in H. unfold wf_term. rewrite forallb_finite_R, andb_true_r.
+    destruct t as [d|c e]; unfold to_mterm; cbn [fst snd].
+    - cbn [wf_coef forallb andb]. rewrite H, finite_R. reflexivity.
     - destruct H as [Hc He]. cbn [forallb]. unfold wf_var. cbn [fst snd]. rewrite Hv.
-      replace (match option_map CDec c with Some c0 => @wf_coef R RNum c0 | None => true end) with true
-        by (destruct c; cbn [option_map wf_coef]; [rewrite Hc|]; reflexivity).
+      replace (match option_map CDec c with Some c0 => @wf_coef R RNum neg c0 | None => true end) with true
+        by (destruct c; cbn [option_map wf_coef]; [rewrite Hc, finite_R|]; reflexivity).
       destruct e as [ds|]; cbn [option_map]; [|destruct c; reflexivity].
-      destruct He as (H1 & H2 & _). unfold wf_expo, wf_dec. cbn [fst snd d_int d_frac]. rewrite H1.
+      destruct He as (H1 & H2 & _). unfold wf_expo, wf_dec. cbn [fst snd d_int d_frac]. rewrite H1, finite_R.
       destruct ds; [congruence|]. destruct c; reflexivity.
   Qed.
 
   Lemma to_msrc_wf u : wf_usrc u = true -> @wf_src R RNum (to_msrc v u) = true.
   Proof.
     unfold wf_usrc, wf_src, to_msrc. intros H. rewrite forallb_forall in H |- *.
-    intros y Hy. apply in_map_iff in Hy as [x [<- Hx]]. cbn [snd]. apply to_mterm_wf, H, Hx.
+    intros y Hy. apply in_map_iff in Hy as [x [<- Hx]]. apply to_mterm_wf, H, Hx.
   Qed.
 
   Lemma uterm_text_lacks_minus t : wf_uterm t = true -> lacks c_minus (uterm_text v t) = true.
@@ -178,7 +182,7 @@ Section Agree.
   Lemma simple_term_const var neg d : wf_dec d = true -> (var = None \/ var = Some v) ->
     @simple_term R RNum var (sign_str neg ++ render_dec d) = Ok (signed neg (dec_val d), O).
   Proof.
-    intros Hd Hvar. unfold simple_term. rewrite (parse_dec_render neg d Hd).
+    intros Hd Hvar. unfold simple_term. rewrite parse_dec_finite_R, (parse_dec_render neg d Hd).
     destruct Hvar as [-> | ->]; [reflexivity|].
     rewrite find_char_lacks; [reflexivity|].
     rewrite lacks_app, (render_dec_lacks d v Hd v_not_decch), sign_lacks_v. reflexivity.
@@ -209,7 +213,7 @@ Section Agree.
         + destruct (render_dec_head d Hc) as (c0 & r0 & E0 & Hd0). rewrite E0 in E. injection E as -> ->.
           rewrite (decch_not ch c_plus Hd0 eq_refl), (decch_not ch c_minus Hd0 eq_refl), P. reflexivity.
       - rewrite app_nil_r. destruct neg; reflexivity. }
-    rewrite Ecoef. unfold rest, upow_text, upow. destruct e as [ds|]; [|reflexivity].
+    rewrite !parse_dec_finite_R, Ecoef. unfold rest, upow_text, upow. destruct e as [ds|]; [|reflexivity].
     destruct He as (H1 & H2 & H3). change (N.eqb c_caret c_caret) with true. cbn iota.
     unfold parse_nat_text. rewrite H1. destruct ds as [|d0 ds]; [congruence|].
     unfold MAX_POWER. destruct (Z.leb_spec (digits_val (d0 :: ds)) 65535); [reflexivity|lia].
@@ -376,6 +380,18 @@ Section Agree.
     destruct H as (H1 & _ & H3). pose proof (digits_val_nonneg ds H1). lia.
   Qed.
 
+  Lemma sums_finite_R (ts : list (R * nat)) : sums_finite ts = true.
+  Proof.
+    unfold sums_finite. generalize (repeat (@n0 R RNum) (S (max_power_of ts))).
+    assert (G : forall (l : list (R * nat)) (st : list R * bool), snd st = true ->
+      snd (fold_left (fun (st : list R * bool) t =>
+             let cs' := add_at (fst st) (snd t) (fst t) in
+             (cs', snd st && is_finite (nth (snd t) cs' n0))) l st) = true).
+    { induction l as [|t l IH]; intros st Hst; cbn [fold_left]; [exact Hst|].
+      apply IH. cbn [snd]. rewrite Hst, is_finite_R. reflexivity. }
+    intros cs. apply G. reflexivity.
+  Qed.
+
   Lemma dense_checked u : wf_usrc u = true ->
     dense_coeffs_checked (map uterm_cp u) = Ok (dense_coeffs (map uterm_cp u)).
   Proof.
@@ -387,7 +403,8 @@ Section Agree.
     set (m := max_power_of (map uterm_cp u)) in *.
     change (2 ^ 64)%Z with 18446744073709551616%Z. change (2 ^ 63 - 1)%Z with 9223372036854775807%Z.
     destruct (Z.leb_spec 18446744073709551616 (Z.of_nat m + 1)); [lia|].
-    destruct (Z.ltb_spec 9223372036854775807 ((Z.of_nat m + 1) * 8)); [lia|reflexivity].
+    destruct (Z.ltb_spec 9223372036854775807 ((Z.of_nat m + 1) * 8)); [lia|].
+    rewrite sums_finite_R. reflexivity.
   Qed.
 
   (* ---- the multivariate side ------------------------------------------------------------- *)
